@@ -29,7 +29,7 @@ ASSUMPTIONS = ["bool entries in shape, an empty shape list and unparsable-but-st
 EXHAUSTIVE = "single-corruption matrix x 5 array kinds"
 KINDS = ['1d', 'nd', 'empty', 'ragged-values', 'ragged-indices']
 MUST_HIT = ['form:Path'] + ['kind:' + k for k in KINDS] + ['corr:file', 'corr:key-removed', 'corr:key-retyped', 'corr:token', 'corr:shape', 'corr:size',
-                                            'corr:itemsize-swap', 'fuzz:opened-consistent', 'fuzz:rejected', 'bypath:delete', 'bypath:truncate']
+                                            'corr:itemsize-swap', 'corr:samelen', 'damage-keeps-timestamps', 'damaged-while-held-open', 'fuzz:opened-consistent', 'fuzz:rejected', 'bypath:delete', 'bypath:truncate']
 
 RETYPES = [None, 123, 1.5, ['x'], {'a': 1}, True]
 TOKENS = {
@@ -57,6 +57,8 @@ def corruptions():
         yield {'c': 'size', 'how': s}
     for d in ('bigger', 'smaller'):
         yield {'c': 'itemsize-swap', 'dir': d}
+    for how in ('numtype-char', 'numtype-othersize', 'byteorder-word', 'arrayorder-char', 'shape-digit', 'keyname-char'):
+        yield {'c': 'samelen', 'how': how}      # the descriptor text keeps its byte length (and, with keepmtime, its time stamp)
 
 
 def make_valid(kind, d):
@@ -84,6 +86,36 @@ def apply_corruption(corr, sub):
         dj = json.load(f)
     c = corr['c']
     itemsize = np.dtype(dj['numtype']).itemsize
+    if c == 'samelen':
+        with open(dp) as f:
+            txt = f.read()
+        nt = dj['numtype']
+        how = corr['how']
+        if how == 'numtype-char':
+            new = txt.replace(f'"{nt}"', f'"{nt[:-1]}x"')
+        elif how == 'numtype-othersize':
+            other = {'int32': 'int64', 'int16': 'int64', 'uint16': 'uint64', 'float64': 'float32', 'int64': 'int32'}.get(nt)
+            if other is None or os.path.getsize(vp) == 0:
+                return False
+            new = txt.replace(f'"{nt}"', f'"{other}"')
+        elif how == 'byteorder-word':
+            new = txt.replace('"little"', '"middle"').replace('"big"', '"bog"')
+        elif how == 'arrayorder-char':
+            new = txt.replace('"arrayorder": "C"', '"arrayorder": "X"')
+        elif how == 'shape-digit':
+            if os.path.getsize(vp) == 0:
+                return False
+            first = str(dj['shape'][0])
+            i = txt.index('"shape"')
+            j = txt.index(first, i)
+            new = txt[:j] + str((int(first[0]) % 9) + 1) + txt[j + 1:]
+        else:
+            new = txt.replace('"shape"', '"shapx"')
+        if new == txt or len(new.encode()) != len(txt.encode()):
+            return False
+        with open(dp, 'w') as f:
+            f.write(new)
+        return True
     if c == 'file':
         how = corr['how']
         if how == 'missing':
@@ -172,9 +204,36 @@ def execute(ctx, spec):
         top, sub, ragged = make_valid(kind, d)
         if corr['c'] in ('key-removed', 'key-retyped') and corr['key'] == 'darrobject' and ragged:
             sub = top      # the darrobject key that matters for darr.open is the top-level one
+        # the process has used the valid array before it is damaged (anything remembered from then must not vouch for it now)
+        dpath, vpath = os.path.join(sub, 'arraydescription.json'), os.path.join(sub, 'arrayvalues.bin')
+        stamps = {p_: os.stat(p_) for p_ in (dpath, vpath) if os.path.exists(p_)}
+        warm = darr.RaggedArray(top) if ragged else darr.Array(top)
+        warm[0] if len(warm) else None
+        warm = None
+        holder = cm = it_ = None
+        wo = spec.get('whileopen')
+        if wo and not (corr['c'] in ('token', 'key-removed', 'shape', 'samelen') or (corr['c'] == 'size' and corr['how'].startswith('+'))):
+            wo = None       # (a held-open data file is only ever lengthened or left alone here, never cut under its map)
+        if wo:
+            # a read-write handle made while the directory was still valid holds the array open during what follows
+            out.cls('damaged-while-held-open')
+            holder = darr.RaggedArray(top, accessmode='r+') if ragged else darr.Array(top, accessmode='r+')
+            if wo == 'ctx' or not len(holder):
+                cm = holder.open_arrays() if ragged else holder.open_array()
+                cm.__enter__()
+            else:
+                it_ = holder.iter_arrays() if ragged else holder.iterchunks(chunklen=1)
+                next(it_)
         if not apply_corruption(corr, sub):
             out.nontrivial = False
+            if cm is not None:
+                cm.__exit__(None, None, None)
             return out
+        if spec.get('keepmtime'):
+            out.cls('damage-keeps-timestamps')
+            for p_, st_ in stamps.items():
+                if os.path.exists(p_):
+                    os.utime(p_, ns=(st_.st_atime_ns, st_.st_mtime_ns))
         out.cls('kind:' + kind, 'corr:' + corr['c'])
         tag = f"{corr['c']}:{corr.get('key', corr.get('how', corr.get('dir', '')))}" + (f":{corr['v']}" if corr['c'] == 'token' else '') + \
               (f":{type(RETYPES[corr['to']]).__name__}" if corr['c'] == 'key-retyped' else '')
@@ -211,6 +270,14 @@ def execute(ctx, spec):
                 if after != before:
                     out.viol('bypath-changed-files', f'{nm}:{tag}', '; '.join(diff(before, after)))
                     break
+        try:
+            if it_ is not None:
+                it_.close()
+            if cm is not None:
+                cm.__exit__(None, None, None)
+        except Exception:
+            pass            # leaving a context whose directory was damaged meanwhile may fail; not part of C18
+        holder = None
     return out
 
 
@@ -325,6 +392,10 @@ def matrix():
     for kind in KINDS:
         for corr in corruptions():
             yield {'kind': kind, 'corr': corr}
+            yield {'kind': kind, 'corr': corr, 'keepmtime': True}
+            if corr['c'] in ('token', 'key-removed', 'shape', 'samelen') or (corr['c'] == 'size' and corr['how'].startswith('+')):
+                yield {'kind': kind, 'corr': corr, 'whileopen': 'ctx'}
+                yield {'kind': kind, 'corr': corr, 'whileopen': 'iter', 'keepmtime': True}
 
 
 def task_matrix(ctx, col, shard):
